@@ -933,6 +933,35 @@ theorem c10_parked_then_fired (P : RsP) (s : RsT) (w : Nat) (hw : w ≠ 0) (hrel
   rw [if_neg hg]
   simp
 
+/-- facade blind: the same parking rule ... -/
+theorem c10_fb_request_parked (P : FbP) (s : FbT) (w : Nat) (hrel : s.rel = 0)
+    (hgate : s.sinceStop < startGate + s.lag) :
+    (fbRelReq P s w).pend = w ∧ (fbRelReq P s w).rel = 0 ∧ (fbRelReq P s w).pos = s.pos ∧ (fbRelReq P s w).tilt = s.tilt := by
+  unfold fbRelReq
+  simp [hrel, hgate]
+
+/-- ... and the same firing rule with the blind's guard (at an end stop with zero margin only a tilt change may start the motor) -/
+theorem c10_fb_trigger_executes (P : FbP) (s : FbT) :
+    (fbFireTrig P s).pend = 0 ∧
+    (s.pend = 0 → fbFireTrig P s = s) ∧
+    (s.pend ≠ 0 → (fbFireTrig P s).rel = fbGuardOn P { s with pend := 0 } s.pend) ∧
+    (P.margin ≠ 0 → s.pend ≠ 0 → (fbFireTrig P s).rel = s.pend) := by
+  unfold fbFireTrig
+  by_cases hp : s.pend = 0
+  · simp [hp]
+  · refine ⟨by simp [hp], fun h => absurd h hp, by intro _; simp [hp], ?_⟩
+    intro hm _
+    simp only [if_neg hp, fbGuardOn]
+    rw [if_neg (by intro h; exact hm h.1)]
+
+/-- a plain move command cancels a blind's task (position and tilt targets) -/
+theorem c10_fb_move_cmd_cancels_task (P : FbP) (s : FbT) (w : Nat) :
+    (fbMoveCmd P s w).tstate = 0 ∧ (fbMoveCmd P s w).target = 0 ∧ (fbMoveCmd P s w).ttarget = 0 ∧ (fbMoveCmd P s w).dir = 0 := by
+  unfold fbMoveCmd
+  by_cases hw : w = 0
+  · rw [if_pos hw]; simp [fbRelOff]
+  · rw [if_neg hw]; unfold fbRelReq; simp only; split <;> split <;> simp
+
 /-- **C10 (the newest request wins)** a request made while the shutter is on its way somewhere else (a task running or an
     output energised) always becomes the task - also when the reported position happens to equal the requested one at
     that moment (before the repair in /repo such a request was ignored and the shutter ran on to the old target) -/
